@@ -194,6 +194,11 @@ void reset() {
     }
 }
 void thread_main(int tid) {
+    if (tid & 1) {
+        // the public overload that takes a cache (parses only when the cache is empty; here it never is)
+        Template::Render(tpl, tpl_len, *thread_val[tid], *out[tid], *cache);
+        return;
+    }
     Core core{tpl, tpl_len};
     core.Render(*cache, *thread_val[tid], *out[tid]);
 }
@@ -237,7 +242,9 @@ std::string describe(int config) {
            (config % 4 == 0 ? "shared(0,0,0)" : (config % 4 == 1 ? "(0,1,0)" : (config % 4 == 2 ? "(2,0,1)" : "shared(3,3,3: pointer members)")));
 }
 // sequential histories: actions 0..7 = render value (a/2) into a fresh (even) or pre-filled (odd) stream through the
-// current cache; 8 = replace the cache by a copy of itself and destroy the original; 9 = move the cache.
+// current cache; 8 = replace the cache by a copy of itself and destroy the original; 9 = move the cache; 10..13 = render value
+// (a-10) through Template::Render(content, length, value, stream, cache) with the parsed cache (storage, capacity and size of the
+// tag array must stay as they are); 14 = empty the cache and let that overload parse it again (the dump must come out the same).
 // Before the histories: every value rendered into a stream that already holds 0..72 units (every fill state of the
 // stream's capacity steps) must give that text followed by the fresh render.
 uint64_t sequential(int ti, int depth, std::string &err) {
@@ -288,19 +295,34 @@ uint64_t sequential(int ti, int depth, std::string &err) {
         bool ok = true;
         for (size_t k = 0; k < hist.size() && ok; k++) {
             int a = hist[k];
-            if (a < 8) {
+            if (a == 14) { // the documented lazy pattern: an empty cache is parsed by the first render through it
+                c->Reset();
+                a = 10;
+            }
+            if (a < 8 || a >= 10) {
                 StringStream<char> ss;
-                if (a & 1) {
+                const int          vi  = (a < 8) ? (a / 2) : (a - 10);
+                const bool         pre = (a < 8) ? ((a & 1) != 0) : (vi & 1) == 0;
+                if (pre) {
                     ss += "#pre#";
                 }
-                Core core{t, len};
-                core.Render(*c, v[a / 2], ss);
+                const TagBit *st0  = c->Storage();
+                const SizeT   cap0 = c->Capacity(), size0 = c->Size();
+                if (a < 8) {
+                    Core core{t, len};
+                    core.Render(*c, v[vi], ss);
+                } else {
+                    Template::Render(t, len, v[vi], ss, *c); // public overload with a cache that is already parsed
+                }
                 std::string got(ss.First() ? ss.First() : "", ss.Length());
-                std::string want = std::string((a & 1) ? "#pre#" : "") + fresh[a / 2];
+                std::string want = std::string(pre ? "#pre#" : "") + fresh[vi];
                 if (k + 1 == hist.size()) {
                     ++steps;
                     if (got != want) {
                         err = "cached render gives '" + got.substr(0, 160) + "', a fresh render '" + want.substr(0, 160) + "'";
+                        ok  = false;
+                    } else if (size0 != 0 && (c->Storage() != st0 || c->Capacity() != cap0 || c->Size() != size0)) {
+                        err = "rendering through a parsed cache reallocated or resized the tag array (other renders hold pointers into it)";
                         ok  = false;
                     }
                 }
@@ -339,7 +361,7 @@ uint64_t sequential(int ti, int depth, std::string &err) {
         if (d == depth) {
             return true;
         }
-        for (int a = 0; a < 10; a++) {
+        for (int a = 0; a < 15; a++) {
             hist.push_back(a);
             bool r = rec(d + 1);
             hist.pop_back();
